@@ -117,6 +117,24 @@ def renderCompact (f : CompactFmt) (t : DT) : List Char :=
   | .tHM => compactDate t ++ ['T'] ++ (pad2 t.hh.toNat ++ pad2 t.mm.toNat)
   | .date => compactDate t
 
+/-- the date part in front of a compact time with a fraction -/
+inductive CFHead where
+  | compactT        -- `YYYYMMDDT`
+  | isoT            -- `YYYY-MM-DDT`
+  | isoSp           -- `YYYY-MM-DD `
+  deriving DecidableEq, Repr
+
+def CFHead.render (hd : CFHead) (t : DT) : List Char :=
+  match hd with
+  | .compactT => compactDate t ++ ['T']
+  | .isoT => pad4 t.y.toNat ++ ['-'] ++ pad2 t.m.toNat ++ ['-'] ++ pad2 t.d.toNat ++ ['T']
+  | .isoSp => pad4 t.y.toNat ++ ['-'] ++ pad2 t.m.toNat ++ ['-'] ++ pad2 t.d.toNat ++ [' ']
+
+/-- `<date>HHMMSS(.|,)f{k}<offset>`: a compact time with `k` fraction digits (expectation: `TimeFmt.expect (.frac _ k)`) -/
+def renderCFrac (hd : CFHead) (comma : Bool) (k : Nat) (t : DT) (off : Off) : List Char :=
+  hd.render t ++ (pad2 t.hh.toNat ++ pad2 t.mm.toNat ++ pad2 t.ss.toNat ++ [if comma then ',' else '.'] ++
+    (pad6 t.us.toNat).take k ++ off.render)
+
 /-- what parsing must return; fields the text does not name come from the default
     (`HHMMSS` after `T` names the microsecond as 0, the 14-digit form does not) -/
 def CompactFmt.expect (f : CompactFmt) (t dflt : DT) : DT :=
